@@ -43,7 +43,7 @@ let canon_of = function
   | OFuel -> { kind = "FUEL"; printed = [] }
   | OStuck -> { kind = "STUCK"; printed = [] }
 
-let evaluate ?(fuel = fuel) ?(secs = 3.0) (p : program) : canon =
+let evaluate ?(fuel = fuel) ?(secs = 2.0) (p : program) : canon =
   match with_timeout secs (fun () -> run_program (Lazy.force fuel) p []) with
   | Some o -> canon_of o
   | None -> { kind = "TIMEOUT"; printed = [] }
